@@ -1067,3 +1067,140 @@ def driver_appends_only(ctx, rid, crates):
             ctx.inst(rid, "%s#appends-only" % name.replace("blots_core::", ""), not bad, "edits of an output buffer other than appending: %s" % (bad or "none"), H.loc(f["body"]))
     if n == 0:
         ctx.inst(rid, "drivers", None, "no format driver was found", None)
+
+
+def constant_indexes(ctx, rid, crates, skip_fns=()):
+    """`x[k]` with a literal k outside the built-in argument vectors: the conditions evaluated *before* the index (an enclosing `if`, the
+    left operand of `&&`) bound the length of the same collection (or of the collection it was mapped from)"""
+    from lib import sig as S
+    ctx.rule(rid, "a literal index into a vector or slice is evaluated only after a test that bounds the length of the same collection (`len() == n`, `len() > k`, `!is_empty()`); a length test that sits to the right of the index in the same `&&` comes too late", floor=4)
+
+    def base_key(e, lets):
+        e = H.strip(e)
+        for _ in range(6):
+            if H.kind(e) == "MethodCall" and e["name"] in ("iter", "clone", "as_slice", "as_ref", "deref", "to_vec", "borrow"):
+                e = H.strip(e["recv"])
+                continue
+            if H.kind(e) == "Unary" and e.get("op") == "Deref":
+                e = H.strip(e["e"])
+                continue
+            break
+        l = H.path_local(e)
+        if l is not None:
+            # a vector built element for element from another one has that one's length
+            init = lets.get(l)
+            if init is not None:
+                x = H.strip(init)
+                chain = []
+                while H.kind(x) == "MethodCall":
+                    chain.append(x["name"])
+                    x = H.strip(x["recv"])
+                if chain and chain[0] == "collect" and set(chain[1:]) <= {"map", "iter", "into_iter", "enumerate", "cloned", "copied", "rev"}:
+                    return base_key(x, lets)
+            return ("local", l)
+        if H.kind(e) == "Field":
+            return ("field", e["name"], base_key(e["e"], lets))
+        return None
+
+    def bounds(cond, pol, lets):
+        """[(base key, minimum length implied)] by a condition known to be `pol`"""
+        out = []
+        c = H.strip(cond)
+        if H.kind(c) == "Unary" and c.get("op") == "Not":
+            return bounds(c["e"], not pol, lets)
+        if H.kind(c) == "Binary" and c["op"] == "And" and pol:
+            return bounds(c["l"], True, lets) + bounds(c["r"], True, lets)
+        if H.kind(c) == "Binary" and c["op"] == "Or" and not pol:
+            return bounds(c["l"], False, lets) + bounds(c["r"], False, lets)
+        if H.kind(c) == "MethodCall" and c["name"] == "is_empty" and not pol:
+            k = base_key(c["recv"], lets)
+            return [(k, 1)] if k else []
+        if H.kind(c) == "Binary" and c["op"] in ("Eq", "Ne", "Gt", "Ge", "Lt", "Le"):
+            for a, b, op in ((c["l"], c["r"], c["op"]), (c["r"], c["l"], {"Gt": "Lt", "Lt": "Gt", "Ge": "Le", "Le": "Ge"}.get(c["op"], c["op"]))):
+                a = H.strip(a)
+                if H.kind(a) == "MethodCall" and a["name"] == "len" and H.lit(b) and H.lit(b)["lk"] == "int":
+                    k = base_key(a["recv"], lets)
+                    n = int(H.lit(b)["v"])
+                    if k is None:
+                        continue
+                    if not pol:
+                        op = {"Eq": "Ne", "Ne": "Eq", "Gt": "Le", "Le": "Gt", "Ge": "Lt", "Lt": "Ge"}[op]
+                    if op == "Eq":
+                        out.append((k, n))
+                    elif op == "Gt":
+                        out.append((k, n + 1))
+                    elif op == "Ge":
+                        out.append((k, n))
+                    elif op == "Ne" and n == 0:
+                        out.append((k, 1))
+        return out
+
+    n_sites = 0
+    for cr in crates:
+        for name, f in sorted(cr.hir.items()):
+            if f.get("body") is None or "::tests::" in name or "parse::rules" in name or "::_::" in name or name in skip_fns:
+                continue
+            lets = {}
+            for x in H.walk(f["body"]):
+                if isinstance(x, dict) and x.get("k") == "Let" and H.kind(x.get("pat")) == "Bind" and x.get("init") is not None:
+                    lets.setdefault(x["pat"]["name"], x["init"])
+            sites = []
+
+            def go(n, guards, late):
+                if isinstance(n, list):
+                    for y in n:
+                        go(y, guards, late)
+                    return
+                if not isinstance(n, dict):
+                    return
+                k = H.kind(n)
+                if k == "Index" and H.lit(n["i"]) and H.lit(n["i"])["lk"] == "int":
+                    sites.append((n, list(guards), list(late)))
+                if k == "If":
+                    go(n["cond"], guards, late)
+                    go(n["then"], guards + [(n["cond"], True)], late)
+                    if n.get("else") is not None:
+                        go(n["else"], guards + [(n["cond"], False)], late)
+                    return
+                if k == "Binary" and n["op"] in ("And", "Or"):
+                    go(n["l"], guards, late + [(n["r"], n["op"] == "And")])
+                    go(n["r"], guards + [(n["l"], n["op"] == "And")], late)
+                    return
+                if k == "Block":
+                    g2 = list(guards)
+                    for st in n["stmts"]:
+                        sub = st.get("init") if st["k"] == "Let" else st.get("e")
+                        go(sub, g2, late)
+                        if st["k"] == "Let" and st.get("els") is not None:
+                            go(st["els"], g2, late)
+                        # `if cond { return / continue }` : afterwards cond is false
+                        if st["k"] in ("Expr", "Semi"):
+                            e_ = H.strip(st["e"])
+                            if H.kind(e_) == "If" and e_.get("else") is None and diverges(e_["then"]):
+                                g2 = g2 + [(e_["cond"], False)]
+                    if n.get("expr") is not None:
+                        go(n["expr"], g2, late)
+                    return
+                for key, v in n.items():
+                    if key in ("sp", "ty", "res"):
+                        continue
+                    if isinstance(v, (dict, list)):
+                        go(v, guards, late)
+            go(f["body"], [], [])
+            for i, (n, guards, late) in enumerate(sites):
+                bt = (H.strip(n["e"]).get("ty") or "")
+                if not ("Vec<" in bt or bt.lstrip("&").startswith("[")):
+                    continue
+                k_ = int(H.lit(n["i"])["v"])
+                bk = base_key(n["e"], lets)
+                n_sites += 1
+                have = [m for c, p in guards for (b2, m) in bounds(c, p, lets) if b2 == bk and bk is not None]
+                too_late = [m for c, p in late for (b2, m) in bounds(c, p, lets) if b2 == bk and bk is not None]
+                if have and max(have) > k_:
+                    v, d = True, "length of the collection is at least %d before index %d is taken" % (max(have), k_)
+                elif too_late and max(too_late) > k_:
+                    v, d = False, "the test that bounds the length (>= %d) is evaluated after the index [%d] in the same condition: an empty collection panics first" % (max(too_late), k_)
+                else:
+                    v, d = None, "no length test on the indexed collection was found before index %d (may hold by construction)" % k_
+                ctx.inst(rid, "%s#index[%d]@%d" % (name.replace("blots_core::", ""), k_, i), v, d, H.loc(n))
+    ctx.units["constant_index_sites_outside_builtins"] = n_sites
